@@ -1,6 +1,7 @@
 import ERP.Lemmas.EStep
 import ERP.Properties.C03
 import ERP.Lemmas.GenArith
+import ERP.Lemmas.GenTies
 /-! # C04 — Extruder coordinate and extruded amounts are preserved outside regions
 
 `phys` executes what the filter forwards, `virt` executes the unfiltered file.  The theorems hold
